@@ -44,6 +44,13 @@ def build_source(spec):
             out.append("def %s():" % f["name"])
             out.append("    return _gen_%s()" % f["name"])
             out.append("")
+    for f in spec["fixtures"]:
+        if f.get("via"):
+            # a test-scoped fixture built on the per-thread one: it must receive the instance of the thread that runs the test
+            out.append("@lcc.fixture(scope='test')")
+            out.append("def via_%s(%s):" % (f["name"], f["name"]))
+            out.append("    return %s" % f["name"])
+            out.append("")
     for s in spec["suites"]:
         out.append("@lcc.suite(%r)" % s["name"])
         out.append("class %s:" % s["name"])
@@ -52,8 +59,9 @@ def build_source(spec):
             out.append("    def %s(self%s):" % (t["name"], "".join(", " + u for u in t["uses"])))
             out.append("        WAVE()")
             for u in t["uses"]:
-                key = "session" if [f for f in spec["fixtures"] if f["name"] == u][0]["scope"] == "session" else s["name"]
-                out.append("        EV.append(['use', %r, %r, TH(), id(%s), %r])" % (u, key, u, t["name"]))
+                base = u[4:] if u.startswith("via_") else u       # seen through a test-scoped fixture: same instance expected
+                key = "session" if [f for f in spec["fixtures"] if f["name"] == base][0]["scope"] == "session" else s["name"]
+                out.append("        EV.append(['use', %r, %r, TH(), id(%s), %r])" % (base, key, u, t["name"]))
             out.append("        time.sleep(0.002)")
         out.append("")
     return "\n".join(out)
@@ -96,7 +104,7 @@ def main():
     ns = {"EV": events, "KEEP": keep, "TH": th, "Val": Val, "WAVE": wave, "TD_RAISES": td_raises}
     exec(compile(build_source(spec), "<c15 project>", "exec"), ns)
     classes = [ns[s["name"]] for s in spec["suites"]]
-    fixtures = [ns[f["name"]] for f in spec["fixtures"]]
+    fixtures = [ns[f["name"]] for f in spec["fixtures"]] + [ns["via_" + f["name"]] for f in spec["fixtures"] if f.get("via")]
     tmp = tempfile.mkdtemp(prefix="lccverif_c15_")
     watchdog = threading.Timer(50, lambda: os._exit(3))
     watchdog.daemon = True
